@@ -579,6 +579,7 @@ type FuncContract struct {
 	Ghosts    []AnchoredClause
 	Safety    bool // generate safety obligations
 	NoSafety  bool
+	WellFormed bool // interface values reached from the inputs are assumed non-nil (well-formed tree)
 	Opaque    []string
 	File      string
 	Line      int
